@@ -9,6 +9,7 @@ EXTENDS Palette, Json
 
 Mags == { <<>>, <<1>>, <<2>>, <<7>>, <<8>>, <<22>>, <<23>>, <<24>>, <<25>>, <<254>>, <<255>>, <<1,0>>, <<1,1>>, <<255,254>>, <<255,255>>,
           <<1,0,0>>, <<1,0,1>>, <<255,255,255,254>>, <<255,255,255,255>>, <<1,0,0,0,0>>, <<1,0,0,0,1>>,
+          <<249>>, <<255,249>>, <<255,255,255,249>>, <<1,0,0,0,4>>,      \* 2^8-7, 2^16-7, 2^32-7, 2^32+4: aliases of registered values under truncation
           <<127,255,255,255,255,255,255,254>>, <<127,255,255,255,255,255,255,255>>,
           <<128,0,0,0,0,0,0,0>>, <<128,0,0,0,0,0,0,1>>, <<255,255,255,255,255,255,255,254>>, <<255,255,255,255,255,255,255,255>> }
 Ints == {I(neg, m) : neg \in BOOLEAN, m \in Mags}
